@@ -349,6 +349,10 @@ class RaisedException(object):
     exc.details = safe_shift(args)
     exc.user_input = safe_shift(args, {})
     exc.user_input = decode_object(exc.user_input.get("u", RaisedException.NO_INPUT))
+    if isinstance(exc._name, str) and exc._name.isidentifier():
+      # Only the name and message of a stored error are known. Keep a stand-in error of that name,
+      # so that a formula reading this cell reports the same error as before it was stored.
+      exc.error = type(exc._name, (Exception,), {})(exc._message)
     return exc
 
 class CellError(Exception):
